@@ -178,6 +178,7 @@ def parseTable (c : Json) : Except String Parsed := do
   let miss ← listOf bool (← field c "miss")
   let loader := match (fieldD base "loader" Json.null).getBool? with | .ok b => b | .error _ => false
   let hdr ← opt strList (fieldD base "hdr" Json.null)
+  let pre ← match c.getObjVal? "pre" with | .ok p => listOf parseStage p | .error _ => pure []
   if kind == "dense" then
     let accs ← listOf (parseAcc true) (← field c "acc")
     let enc ← opt (listOf parseEnc) (fieldD base "enc" Json.null)
@@ -189,7 +190,7 @@ def parseTable (c : Json) : Except String Parsed := do
       | "lazy" => pure (DBase.lazy vals loader enc hdr p.2)
       | "arff" => pure (DBase.arff (← listOf parseCol (← field base "cols")) vals p.2)
       | w => throw s!"wrap {w}")
-    pure ⟨.dense bases, ri, accs⟩
+    pure ⟨.dense pre bases, ri, accs⟩
   else
     let accs ← listOf (parseAcc false) (← field c "acc")
     let enc ← opt (listOf (pair parseKey parseEnc)) (fieldD base "enc" Json.null)
@@ -200,18 +201,18 @@ def parseTable (c : Json) : Except String Parsed := do
       | "lazy" => pure (SBase.lazy d loader (enc.getD []) hdr p.2)
       | "arff" => pure (SBase.arff (← listOf parseCol (← field base "cols")) d p.2)
       | w => throw s!"wrap {w}")
-    pure ⟨.sparse bases, ri, accs⟩
+    pure ⟨.sparse pre bases, ri, accs⟩
 
 /-- the answer for one table from what `session` produced for it -/
 def answerOf (stages : List Stage) (p : Parsed) (out : TableOut) : Json :=
   match p.table, out with
-  | .dense bases, .dense t =>
+  | .dense pre bases, .dense t =>
     -- hypothesis of `first_row_irrelevant`: every row looks like the first one at every stage
-    (answer t (eagerTableD stages bases) p.ri p.accs obsD eagerObsD runD).setObjVal! "uniform" (Json.bool (uniformRun stages (bases.map baseD)))
-  | .sparse bases, .sparse t =>
+    (answer t (eagerTableD (pre ++ stages) bases) p.ri p.accs obsD eagerObsD runD).setObjVal! "uniform" (Json.bool (uniformRun (pre ++ stages) (bases.map baseD)))
+  | .sparse pre bases, .sparse t =>
     -- hypotheses of the sparse theorems: no stage addresses a hidden raw key of a header-mapped base
-    let safe := bases.all (fun b => leakSafe (!(baseS b).leak.isEmpty) stages)
-    (answer t (eagerTableS stages bases) p.ri p.accs obsS eagerObsS runS).setObjVal! "leak_safe" (Json.bool safe)
+    let safe := bases.all (fun b => leakSafe (!(baseS b).leak.isEmpty) (pre ++ stages))
+    (answer t (eagerTableS (pre ++ stages) bases) p.ri p.accs obsS eagerObsS runS).setObjVal! "leak_safe" (Json.bool safe)
   | _, _ => obj [("model", obj [("pipe_err", ofNat 1)]), ("spec", Json.null), ("hyp", Json.bool false)]
 
 /-- request `{"case": table}` or `{"tables": [table…], "stages": […]}`: the tables go through `session`
